@@ -7,6 +7,7 @@
 package main
 
 import (
+	"bytes"
 	"encoding/json"
 	"fmt"
 	"os"
@@ -43,6 +44,8 @@ type Program struct {
 	Damaged []string `json:"damaged,omitempty"` // shards whose database file is garbage at the start (a "repair" thread removes it)
 	Free    bool     `json:"free,omitempty"`    // race pass: plain goroutines, no scheduler, real locks and a real (short) idle timer
 }
+
+const garbage = "this is not a bbolt database, it only has to fail to open"
 
 func scratch() string {
 	if d := os.Getenv("VERIF_SCRATCH"); d != "" {
@@ -110,7 +113,7 @@ func run(raw json.RawMessage, prefix []string) (*vsched.Trace, []schedlib.V, str
 	damaged := map[string]bool{}
 	for _, id := range p.Damaged {
 		os.MkdirAll(filepath.Dir(shardPath(id)), 0755)
-		os.WriteFile(shardPath(id), []byte("this is not a bbolt database, it only has to fail to open\n"), 0644)
+		os.WriteFile(shardPath(id), []byte(garbage+"\n"), 0644)
 		damaged[id] = true
 	}
 	request := func(name, shardId string) (ok bool) {
@@ -153,6 +156,7 @@ func run(raw json.RawMessage, prefix []string) (*vsched.Trace, []schedlib.V, str
 		return false
 	}
 	done := 0
+	var refused []string // shards the final probe could not use although their file is intact or absent
 	total := len(p.Threads)
 	if p.Free {
 		return freeRun(p, sm, col, request, fail, &hmu, &done), viols, ""
@@ -182,7 +186,11 @@ func run(raw json.RawMessage, prefix []string) (*vsched.Trace, []schedlib.V, str
 				case "repair":
 					// the cause of a failing open goes away (the damaged file is removed)
 					vsched.Point("repair-begin " + th.Shard)
-					os.Remove(shardPath(th.Shard))
+					// only the damaged file: a deletion may have removed it and a later
+					// request created a proper database in its place
+					if b, err := os.ReadFile(shardPath(th.Shard)); err == nil && bytes.HasPrefix(b, []byte(garbage)) {
+						os.Remove(shardPath(th.Shard))
+					}
 					hmu.Lock()
 					delete(damaged, th.Shard)
 					hmu.Unlock()
@@ -208,17 +216,39 @@ func run(raw json.RawMessage, prefix []string) (*vsched.Trace, []schedlib.V, str
 			for _, id := range []string{"s1", "s2"} {
 				ok := request("probe", id)
 				hmu.Lock()
-				bad := damaged[id]
-				hmu.Unlock()
-				if !ok && !bad {
-					fail("shard-cannot-be-loaded-again", "after all threads finished a new request on %s (whose database file is intact or absent) is refused: an earlier failed open left the manager in a state it does not recover from", id)
+				if !ok && !damaged[id] {
+					// may be transient (the idle unload of this shard is under way): decided after the run
+					refused = append(refused, id)
 				}
+				hmu.Unlock()
 			}
 		})
 	})
 	if tr.Unsettled && strings.Contains(tr.Dump, "bbolt.flock") {
 		fail("shard-file-open-twice", "a goroutine is waiting for the file lock of a shard database that this process already holds open:\n%s", clipDump(tr.Dump, "bbolt.flock"))
 		tr.Unsettled = false
+	}
+	// A refusal during an unload that is under way is a clean, transient error.  Once
+	// every thread has finished and the clean-up goroutines have run, the shard must
+	// load: a refusal that persists is a state the manager does not recover from.
+	if !tr.Deadlock && !tr.Unsettled && tr.Diverged == "" {
+		for _, id := range refused {
+			var err error
+			for attempt := 0; attempt < 400; attempt++ {
+				if err = sm.DoWithShard(col, id, func(*shard.Shard) error { return nil }); err == nil {
+					break
+				}
+				time.Sleep(5 * time.Millisecond)
+			}
+			if err != nil {
+				fail("shard-cannot-be-loaded-again", "after all threads and clean-up goroutines finished, requests on %s (whose database file is intact or absent) are still refused after 2 s of retries: %v", id, err)
+			}
+		}
+		if len(refused) > 0 {
+			// the retries loaded shards outside the scheduler: close them so that their
+			// clean-up goroutines do not outlive this execution
+			sm.VerifCloseAllShards()
+		}
 	}
 	// let leftover goroutines finish (Teardown woke them and fired the timers)
 	deadline := time.Now().Add(20 * time.Millisecond)
